@@ -33,7 +33,7 @@ def prop(pid, **kw):
 prop(
     "C01",
     rules=["C01-R1", "C01-R3", "C01-R4", "C01-R5", "C08-R5", "C01-R2"],
-    mir_rules=[S.rule_entity_resolver, S.rule_remover, S.rule_slot_primitives, S2.rule_grower, S2.rule_populate, S2.rule_ctor, SP.rule_funnel],
+    mir_rules=[S.rule_entity_resolver, S.rule_remover, S.rule_slot_primitives, S2.rule_grower, S2.rule_populate, S2.rule_ctor, SP.rule_funnel, SP.rule_unchecked_conversions],
     floors={
         "C01-R1": lambda c: 8 * n_storages(c),
         "C01-R3": lambda c: n_storages(c) + 2,
@@ -49,21 +49,26 @@ prop(
 prop(
     "C02",
     rules=["C02-R1", "C02-R2", "C02-R4", "X-EXT@remover", "X-EXT@creator", "X-EXT@grower", "X-EXT@view", "X-EXT@borrow", "X-EXT@other", "C02-R5", "C02-R3", "X-EXT@prim"],
-    mir_rules=[S.rule_creator, S.rule_remover, S.rule_extent, S2.rule_grower, SP.rule_iter_loops, S2.rule_dataptr_primitives],
-    floors={"C02-R1": lambda c: 3 * n_storages(c), "C02-R2": lambda c: 4 * n_storages(c), "X-EXT@remover": lambda c: 3 * n_storages(c), "X-EXT@creator": lambda c: n_storages(c), "X-EXT@view": lambda c: 2 * n_storages(c)},
+    mir_rules=[S.rule_creator, S.rule_remover, S.rule_extent, S2.rule_grower, SP.rule_iter_loops, S2.rule_dataptr_primitives, S2.rule_alloc_discipline],
+    floors={"C02-R3": 6, "C02-R1": lambda c: 3 * n_storages(c), "C02-R2": lambda c: 4 * n_storages(c), "X-EXT@remover": lambda c: 3 * n_storages(c), "X-EXT@creator": lambda c: n_storages(c), "X-EXT@view": lambda c: 2 * n_storages(c)},
     explanation="Static analysis. Decides: C02-R1 the creator writes the handle and all N components at one index = pre-increment len, component i into column i; "
     "C02-R2 the remover swap_removes all N+1 arrays at the resolved dense index with the pre-decrement len and returns the values moved out of columns 0..N-1 in order; "
-    "X-EXT every slice/raw view of an array is cut at the extent it is valid for (len for dense arrays, capacity for slots), fresh at the call.",
+    "X-EXT every slice/raw view of an array is cut at the extent it is valid for (len for dense arrays, capacity for slots), fresh at the call; "
+    "C02-R3 the DataPtr primitives address what they say: write(i, v) stores at cell i without reading it, swap_remove(i, len) returns cell i and copies exactly cell len-1 into it (read before copy), slice(len) = from_raw_parts(base, len), "
+    "and growth carries the old cells over: realloc(self.0, array layout of old_capacity, byte size of the array layout of capacity), or alloc + copy of old_capacity cells of T (typed, or old_capacity*size_of::<T>() bytes) + dealloc with the old layout; "
+    "any other memory move inside DataPtr is reported; C02-R4/R5 readers and expansions use one resolved index for every column of a visit.",
     not_decided="that columns stay in lock-step over histories (I2/I3); value equality is never computed",
 )
 
 prop(
     "C03",
-    rules=["C03-R1", "C03-R7", "X-EXT@resolver", "X-EXT@view", "X-EXT@borrow", "C03-R3", "C03-R4", "C03-R5", "C03-R2"],
-    mir_rules=[S.rule_entity_resolver, S.rule_direct_resolver, S.rule_extent, E.rule_layout, E.rule_id_bits_inert, E.rule_version_opaque, E.rule_conversions, X.rule_unchecked_inventory],
-    floors={"C03-R1": lambda c: 4 * n_storages(c), "C03-R7": lambda c: 2 * n_storages(c)},
+    rules=["C03-R1", "C03-R7", "X-EXT@resolver", "X-EXT@view", "X-EXT@borrow", "C03-R3", "C03-R4", "C03-R5", "C03-R2", "C03-R8"],
+    mir_rules=[S.rule_entity_resolver, S.rule_direct_resolver, S.rule_extent, E.rule_layout, E.rule_id_bits_inert, E.rule_version_opaque, E.rule_conversions, X.rule_unchecked_inventory, SP.rule_unchecked_conversions],
+    floors={"C03-R1": lambda c: 4 * n_storages(c), "C03-R7": lambda c: 2 * n_storages(c), "C03-R8": 10},
     explanation="Static analysis. Decides: C03-R1/R7 every unchecked read whose index derives from a key is dominated by the exact bounds guard against the extent of the array it indexes "
-    "and by the generation / free-bit guard before slot contents are used as an index; X-EXT extents match the arrays.",
+    "and by the generation / free-bit guard before slot contents are used as an index; X-EXT extents match the arrays; "
+    "C03-R2 who may use unchecked operations: every unchecked operation (by class: pointer arithmetic, unchecked indexing, raw deref, raw-parts, pointer moves, drop-in-place, allocator, assume-hints, transmute, call of a named unsafe fn) occurs only in a function family that the reviewed table lists for that class, where a named rule discharges it; private helpers count as part of the reviewed functions that call them; C03-R3/R4/R5 generation numbers are only compared, widths and the 8 id bits agree and the id bits never reach an index; "
+    "C03-R8 a dynamic handle becomes a typed one (TryFrom / from_any, both handle kinds) only on the path guarded by id(key) == A::ARCHETYPE_ID, so a handle of another archetype never reaches a typed resolver.",
     not_decided="memory safety in states where I1-I4 do not hold; no sanitizer-style evidence is produced",
 )
 
@@ -80,11 +85,12 @@ prop(
 
 prop(
     "C09",
-    rules=["C09-R1", "C09-R2", "C09-R3", "C09-R4", "C09-R5", "C09-R6"],
-    mir_rules=[S.rule_direct_resolver, S.rule_remover, S.rule_creator, S2.rule_grower, SP.rule_funnel, SP.rule_mints, E.rule_conversions],
-    floors={"C09-R1": lambda c: 5 * n_storages(c), "C09-R2": lambda c: n_storages(c), "C09-R3": lambda c: n_storages(c)},
+    rules=["C09-R1", "C09-R2", "C09-R3", "C09-R4", "C09-R5", "C09-R6", "C09-R7"],
+    mir_rules=[S.rule_direct_resolver, S.rule_remover, S.rule_creator, S2.rule_grower, SP.rule_funnel, SP.rule_mints, E.rule_conversions, SP.rule_unchecked_conversions],
+    floors={"C09-R1": lambda c: 5 * n_storages(c), "C09-R2": lambda c: n_storages(c), "C09-R3": lambda c: n_storages(c), "C09-R7": 5},
     explanation="Static analysis. Decides: C09-R1 the direct resolver accepts on exactly one path guarded by {key.version==self.version, dense_index<len}; "
-    "C09-R2 every remover stores version<-version.next() unconditionally; C09-R3 creators write only at index old-len and never touch version.",
+    "C09-R2 every remover stores version<-version.next() unconditionally; C09-R3 creators write only at index old-len and never touch version; C09-R4 every direct handle minted in an expansion carries a version read after the last removal of that visit; "
+    "C09-R6 every API taking a direct key reaches storage only through the direct resolver (to_direct included); C09-R7 EntityDirectAny becomes EntityDirect<A> only on the path guarded by id(key) == A::ARCHETYPE_ID (a direct handle of another archetype never reaches A's resolver).",
     not_decided="the temporal statement (issued at t, used at t') over histories",
 )
 
@@ -103,12 +109,15 @@ prop(
 prop(
     "C04",
     rules=["C04-R2", "C04-R3", "C04-R4", "C04-R5", "X-WMC", "X-EXT@dropper", "C04-R1", "C04-R7"],
-    mir_rules=[S.rule_remover, S2.rule_dropper, S2.rule_push_guards, S2.rule_cloner, S2.rule_who_may, S.rule_extent, S2.rule_dataptr_primitives, S2.rule_forbidden_calls],
-    floors={"C04-R2": lambda c: n_storages(c), "C04-R3": lambda c: 5 * n_storages(c), "C04-R4": lambda c: 5 * n_storages(c), "C04-R5": lambda c: n_storages(c), "X-WMC": lambda c: 6 * n_storages(c)},
+    mir_rules=[S.rule_remover, S2.rule_dropper, S2.rule_push_guards, S2.rule_cloner, S2.rule_who_may, S.rule_extent, S2.rule_dataptr_primitives, S2.rule_forbidden_calls, S2.rule_alloc_discipline],
+    floors={"C04-R1": 15, "C04-R2": lambda c: n_storages(c), "C04-R3": lambda c: 5 * n_storages(c), "C04-R4": lambda c: 5 * n_storages(c), "C04-R5": lambda c: n_storages(c), "X-WMC": lambda c: 6 * n_storages(c)},
     explanation="Static analysis. Decides: X-WMC the ownership primitives (write, swap_remove, drop_to, dealloc, grow) are called only by the functions whose role owns them; "
     "C04-R2 the remover moves exactly one value out of each of the N+1 arrays and pairs it with one len decrement; C04-R3 Drop drops cells [0,len) of each column exactly once before freeing each array once with the tracked capacity, "
     "DataPtr has no Drop impl, and no second drop is reachable from the unwind edge of a panicking cell drop; C04-R4 a refused create_within_capacity returns its argument untouched on an effect-free path; "
-    "C04-R5/C13-R2 clone clones each live cell exactly once into a fresh array.",
+    "C04-R5/C13-R2 clone clones each live cell exactly once into a fresh array; "
+    "C04-R1 allocator discipline of DataPtr (GlobalAlloc contract): alloc only with the array layout of the capacity argument on a path with sized T and capacity != 0, realloc/dealloc only of self.0 with the array layout of the capacity it was allocated with on a path where that capacity != 0, "
+    "the no-op paths only for zero-sized T or capacity 0, the allocator's (null-checked) result is what gets installed, nobody but DataPtr calls the allocator, swap_remove never drops; "
+    "C04-R7 no call to mem::forget, ManuallyDrop::new, *::leak, RefCell::as_ptr, UnsafeCell::get, *::into_raw or zeroed anywhere in gecs or in the specimen expansions.",
     not_decided="exactly-once over all histories additionally needs I2; leak-freedom of user Drop impls; allocator behaviour",
 )
 
@@ -124,12 +133,13 @@ prop(
 
 prop(
     "C10",
-    rules=["C10-R1", "C10-R2", "C10-R4", "C10-R3"],
-    mir_rules=[U.rule_commit_sections, S2.rule_grower, S2.rule_ctor, SP.rule_sealed_callbacks],
-    floors={"C10-R1": lambda c: 7 * n_storages(c), "C10-R2": lambda c: 2 * n_storages(c), "C10-R4": lambda c: 2 * n_storages(c)},
+    rules=["C10-R1", "C10-R2", "C10-R4", "C10-R3", "C10-R6"],
+    mir_rules=[U.rule_commit_sections, S2.rule_grower, S2.rule_ctor, SP.rule_sealed_callbacks, U.rule_clone_unwind],
+    floors={"C10-R6": lambda c: n_storages(c), "C10-R1": lambda c: 7 * n_storages(c), "C10-R2": lambda c: 2 * n_storages(c), "C10-R4": lambda c: 2 * n_storages(c)},
     explanation="Static analysis (may-unwind classification of every effect on every path, closed std tables, fail closed on unclassified callees). Decides: C10-R1 no creator, remover, grower or entry point wrapping them "
     "has a may-unwind point between its first and its last state write (nor a panic path after the first write), exemptions only by keyed table entry with reason; C10-R2 the documented capacity panics precede all writes; "
-    "C10-R4 RefCell borrow panics occur only in functions that do not write the representation.",
+    "C10-R4 RefCell borrow panics occur only in functions that do not write the representation; C10-R3 user callbacks run only in generated code outside gecs' own mutators (sealed callbacks); "
+    "C10-R6 while Clone::clone runs user Clone code no value of the storage type (which has Drop) is dropped on an unwind edge, or, if one is, its len is only advanced after the row's user calls of that iteration.",
     not_decided="that every other property still holds after a panic beyond `no mutator was interrupted between two state writes`; panics inside user Drop during unwinding; callbacks in generated code are judged by the specimen rules",
 )
 
@@ -258,8 +268,8 @@ prop(
     static_floors={"C19-R1": 15, "C19-R2": 20, "C19-R6": 3},
     mir_rules=[X.rule_debug_checks, S.rule_version_next],
     floors={"C19-R3": 1},
-    explanation="Static analysis. Decides: C19-R1 the inventory of every cfg/cfg_attr attribute and cfg!() invocation in both crates (token-level, including inside macro_rules bodies) equals the reviewed table, keyed by file/kind/predicate; "
-    "C19-R2 gated regions are confined: `events` gates mention only the event logs, `wrapping_version` gates are the alternative initialisers of `version` in next(), `32_components` gates are the 17..=32 twins of the ungated instantiations; "
+    explanation="Static analysis. Decides: C19-R1 every cfg/cfg_attr attribute and cfg!() invocation in both crates (token-level, including inside macro_rules bodies) uses one of the documented predicates (the three features, debug_assertions, doc) and emitted templates only repeat the user's own predicate -- sites are neither counted nor keyed by position; "
+    "C19-R2 each gated region is confined by the rule of its predicate class wherever it sits: `events` gates mention only the event logs and assign no core field, `wrapping_version` gates contain only the successor computation (wrapping_add(1) / checked_add(1)) and both polarities are paired per function, `32_components` gates are the 17..=32 twins of the ungated instantiations; "
     "C19-R3 (G-DBG) every debug_assert* region of gecs (found on the CFG by its `if cfg!(debug_assertions)` switch) is effect free: no store through a pointer, no mutable borrow of state, only calls without write effect -- so assertions on/off cannot change state; "
     "C19-R4 every rule of every other property is evaluated in each analysed configuration (quick: 3, thorough: all 16) and a rule instance that fails in some configurations but not in others is reported here; C19-R5 the wrapping next() has neither a panic nor an unchecked operation, "
     "generations are only compared (C03-R3); C19-R6 Cargo feature wiring (events forwards to gecs_macros/events only).",
